@@ -118,33 +118,64 @@ fn apply(op: &HOp, s: Option<u64>) -> Option<Option<u64>> {
     }
 }
 
-/// Is the sub-history of one key linearizable from `init`?  Returns the set of possible final
-/// states, or an explanation.
+/// searches abandoned because the history was too long or the search too large (the history then
+/// counts as explained: the checker never raises an alarm it has not established)
+pub static ABANDONED: std::sync::atomic::AtomicU64 = std::sync::atomic::AtomicU64::new(0);
+const NODE_BUDGET: usize = 3_000_000;
+
+/// Is the sub-history of one key linearizable from `init`?  Returns the final state of the first
+/// witness found, or an explanation.
 pub fn check_key(init: Option<u64>, ents: &[HEnt]) -> Result<Vec<Option<u64>>, String> {
     let n = ents.len();
-    if n > 60 {
-        return Err(format!("history of {} operations on one key is too long for the checker", n));
+    if n > 127 {
+        ABANDONED.fetch_add(1, std::sync::atomic::Ordering::Relaxed);
+        return Ok(vec![]);
     }
-    let full: u64 = if n == 64 { u64::MAX } else { (1u64 << n) - 1 };
-    let mut seen: HashSet<(u64, Option<u64>)> = HashSet::new();
-    let mut finals: Vec<Option<u64>> = Vec::new();
+    let full: u128 = (1u128 << n) - 1;
+    // candidates are tried in order of their responses (the order in which the calls returned is
+    // usually close to a witness)
+    let mut order: Vec<usize> = (0..n).collect();
+    order.sort_by_key(|i| std::cmp::Reverse(ents[*i].resp));
+    let mut seen: HashSet<(u128, Option<u64>)> = HashSet::new();
     // iterative DFS
-    let mut stack: Vec<(u64, Option<u64>)> = vec![(0, init)];
+    let mut stack: Vec<(u128, Option<u64>)> = vec![(0, init)];
     let mut best_done = 0u32;
-    let mut best_state: (u64, Option<u64>) = (0, init);
-    while let Some((done, st)) = stack.pop() {
+    let mut best_state: (u128, Option<u64>) = (0, init);
+    while let Some((mut done, st)) = stack.pop() {
+        // lookups whose result matches the current state are placed at once: they do not change
+        // the state, and an operation that may be placed next (nothing pending returned before it
+        // was invoked) can be moved to the front of any witness that continues from here
+        loop {
+            let mut min_resp = u64::MAX;
+            for (i, e) in ents.iter().enumerate() {
+                if done >> i & 1 == 0 && e.resp < min_resp {
+                    min_resp = e.resp;
+                }
+            }
+            let mut progressed = false;
+            for (i, e) in ents.iter().enumerate() {
+                if done >> i & 1 == 0 && e.inv <= min_resp && !is_write(&e.op) && apply(&e.op, st) == Some(st) {
+                    done |= 1 << i;
+                    progressed = true;
+                }
+            }
+            if !progressed {
+                break;
+            }
+        }
         if !seen.insert((done, st)) {
             continue;
+        }
+        if seen.len() > NODE_BUDGET {
+            ABANDONED.fetch_add(1, std::sync::atomic::Ordering::Relaxed);
+            return Ok(vec![]);
         }
         if done.count_ones() > best_done {
             best_done = done.count_ones();
             best_state = (done, st);
         }
         if done == full {
-            if !finals.contains(&st) {
-                finals.push(st);
-            }
-            continue;
+            return Ok(vec![st]);
         }
         // earliest response among the pending operations
         let mut min_resp = u64::MAX;
@@ -153,16 +184,14 @@ pub fn check_key(init: Option<u64>, ents: &[HEnt]) -> Result<Vec<Option<u64>>, S
                 min_resp = e.resp;
             }
         }
-        for (i, e) in ents.iter().enumerate() {
+        for &i in &order {
+            let e = &ents[i];
             if done >> i & 1 == 1 {
                 continue;
             }
             // e may be linearized next only if no pending operation completed before e was invoked
             if e.inv > min_resp {
                 continue;
-            }
-            if let Some(ns) = apply(&e.op, st) {
-                stack.push((done | 1 << i, ns));
             }
             if let HOp::MaybeRemove { v } = &e.op {
                 if st == Some(*v) {
@@ -172,21 +201,20 @@ pub fn check_key(init: Option<u64>, ents: &[HEnt]) -> Result<Vec<Option<u64>>, S
             if matches!(e.op, HOp::MaybeForceRemove) && st.is_some() {
                 stack.push((done | 1 << i, None));
             }
+            if let Some(ns) = apply(&e.op, st) {
+                stack.push((done | 1 << i, ns));
+            }
         }
     }
-    if finals.is_empty() {
-        let pending: Vec<String> = ents.iter().enumerate().filter(|(i, _)| best_state.0 >> i & 1 == 0).map(|(_, e)| format!("T{}[{}..{}] {:?}", e.thread, e.inv, e.resp, e.op)).collect();
-        Err(format!(
-            "no sequential order explains the results: initial state {:?}; the longest consistent prefix covers {} of {} operations and leaves the cell at {:?}; operations that cannot be placed: {}",
-            init,
-            best_done,
-            n,
-            best_state.1,
-            pending.join(", ")
-        ))
-    } else {
-        Ok(finals)
-    }
+    let pending: Vec<String> = ents.iter().enumerate().filter(|(i, _)| best_state.0 >> i & 1 == 0).map(|(_, e)| format!("T{}[{}..{}] {:?}", e.thread, e.inv, e.resp, e.op)).collect();
+    Err(format!(
+        "no sequential order explains the results: initial state {:?}; the longest consistent prefix covers {} of {} operations and leaves the cell at {:?}; operations that cannot be placed: {}",
+        init,
+        best_done,
+        n,
+        best_state.1,
+        pending.join(", ")
+    ))
 }
 
 /// group a history by key and check each key; `init(key)` is the value before the concurrent part
